@@ -344,6 +344,19 @@ theorem uniq_to_hpx_spec (w : Nat) (urs : List Rng) (x : Rng) :
       · exact .inl ⟨u - r.1, by omega, by rw [Nat.add_sub_cancel' h1]⟩
       · exact .inr h
 
+/-- **`HpxUniq2DepthIdxIter`** (`iter_depth_pix`) lists exactly the cells of the emitted ranges: `(depth, index)` is produced
+    iff some emitted range of level `J − depth` contains the cell of that index. -/
+theorem depth_idx_spec (g J : Nat) (es : List (Nat × Rng)) (d i : Nat) :
+    (d, i) ∈ depthIdx g J es ↔
+      ∃ e ∈ es, d = J - e.1 ∧ e.2.1 >>> (g * e.1) ≤ i ∧ i < e.2.2 >>> (g * e.1) := by
+  unfold depthIdx
+  simp only [List.mem_flatMap, List.mem_map, List.mem_range, Prod.mk.injEq]
+  constructor
+  · rintro ⟨e, he, k, hk, h1, h2⟩
+    exact ⟨e, he, h1.symm, by omega, by omega⟩
+  · rintro ⟨e, he, h1, h2, h3⟩
+    exact ⟨e, he, i - e.2.1 >>> (g * e.1), by omega, h1.symm, by omega⟩
+
 /-- Non-vacuity: a canonical list to which both theorems apply (a whole level-1 cell and one more index; the
     driver evaluates `run` on it: `[(1, (12, 16)), (0, (16, 17))]`). -/
 example : Canon [((12 : Nat), (17 : Nat))] := by simp [Canon, CanonFrom]
